@@ -25,15 +25,32 @@ M = {
     "search_clears_errors": (SIM, "        if len(self._errors) > 0:\n            return self\n\n        self._handle_simulation_results(\n            self.integrator.integrate_to_steady_state(",
                              "        self._errors = []\n\n        self._handle_simulation_results(\n            self.integrator.integrate_to_steady_state("),
     "nan_default_zero": (SCAN, "fill_value=np.nan", "fill_value=0.0"),
-    # with fixes/C15-integrator-failure.diff applied first (name starts with fix_): the repaired check must notice its removal
+    # NaN norms (round 3): the early-continue form of seeded change C15-4 written inline, and NaN silently mapped to 0
+    "not_ge_inline": (SCIPY, "if np.linalg.norm(diff, ord=2) < tolerance:", "if not np.linalg.norm(diff, ord=2) >= tolerance:"),
+    "nan_to_num": (SCIPY, "diff = (y2 - y1) / y1 if rel_norm else y2 - y1",
+                   "diff = np.nan_to_num((y2 - y1) / y1 if rel_norm else y2 - y1)"),
+    # lazily evaluated results use whatever parameters the shared model carries (seeded change C15-6, other wording)
+    "lazy_params_single": (SCAN, "            self.model.update_parameters(p)\n            self.raw_args.append(",
+                           "            if len(self.raw_parameters) != 1:\n                self.model.update_parameters(p)\n            self.raw_args.append("),
+    # seeded changes C15-1 and C15-3 re-based onto the loop as it is since a56e563 (their stored patch.diff no longer applies)
+    "seeded1_rel_skips_empty": [
+        (SCIPY, "y1 = copy.deepcopy(self.y0)", "y1 = np.array(self.y0, dtype=float)"),
+        (SCIPY, "            diff = (y2 - y1) / y1 if rel_norm else y2 - y1\n",
+         "            if rel_norm:\n                with np.errstate(divide=\"ignore\", invalid=\"ignore\"):\n"
+         "                    diff = np.where(y1 == 0, 0.0, (y2 - y1) / y1)\n            else:\n                diff = y2 - y1\n"),
+    ],
+    "seeded3_allclose": (SCIPY, "            diff = (y2 - y1) / y1 if rel_norm else y2 - y1\n            if np.linalg.norm(diff, ord=2) < tolerance:\n",
+                         "            converged = (\n                np.allclose(y2, y1, rtol=tolerance, atol=0.0)\n                if rel_norm\n"
+                         "                else np.allclose(y2, y1, atol=tolerance)\n            )\n            if converged:\n"),
 }
 name = os.environ.get("MUTNAME", "")
 if name not in M:
     sys.exit(f"MUTNAME must be one of {sorted(M)}")
-f, old, new = M[name]
-p = Path(f)
-s = p.read_text()
-if s.count(old) != 1:
-    sys.exit(f"{name}: pattern occurs {s.count(old)} times in {f}")
-p.write_text(s.replace(old, new))
-print(f"mutation {name} applied to {f}")
+edits = M[name] if isinstance(M[name], list) else [M[name]]
+for f, old, new in edits:
+    p = Path(f)
+    s = p.read_text()
+    if s.count(old) != 1:
+        sys.exit(f"{name}: pattern occurs {s.count(old)} times in {f}")
+    p.write_text(s.replace(old, new))
+    print(f"mutation {name} applied to {f}")
